@@ -960,7 +960,9 @@ class Machine:
             d["call"] = lambda wv: W(xa, ya)
             d["text"] = f"Weaver(x {xf} of length {m}, y {yf} of length {n})"
         elif c == "ctor-not-Nx2":
-            shape = st.pick(((n, 3), (n,), (n, 2, 1), (2, n + 1), (n, 1)), "shape")
+            # shapes tied to the current length and small fixed ones (a 2-vector is not a (1, 2) array)
+            shape = st.pick(((n, 3), (n,), (n, 2, 1), (2, n + 1), (n, 1), (2,), (1,), (3,), (4,), (), (1, 3), (2, 3),
+                             (1, 2, 1), (2, 2, 2), (1, 1, 2), (3, 1), (2, 1)), "shape")
             d["call"] = lambda wv: W.from_2d_array(np.zeros(shape))
             d["text"] = f"Weaver.from_2d_array(array of shape {shape})"
         elif c == "recreate-n-below-2":
@@ -1047,8 +1049,12 @@ class Machine:
             d["text"] = f"truncate_by_value({found[0]}, {found[1]:g}, x_left_as_ratio=True) - an empty range for one of the two series"
         elif c in ("truncate-index-bounds", "slice-index-bounds"):
             meth = "truncate_by_index" if c.startswith("truncate") else "slice_by_index"
-            k = st.draw(0, 3, "bounds-variant")
-            if k == 0:
+            k = st.draw(0, 5, "bounds-variant")
+            if k == 4:
+                args = (n + st.draw(1, 5), None)                 # starts beyond the end
+            elif k == 5:
+                args = (n + st.draw(1, 5), n)
+            elif k == 0:
                 args = (-st.draw(1, 3), None)
             elif k == 1:
                 args = (-st.draw(1, 3), st.draw(1, n))
@@ -1076,7 +1082,12 @@ class Machine:
         elif c in ("match-unknown-target-rule", "match-unknown-reference-rule", "match-unknown-strategy"):
             # surrounding VALID arguments vary: none, an exponent, the other rule, explicit fixed points (values or indices)
             kw = {}
-            extra = st.draw(0, 4, "surrounding")
+            extra = st.draw(0, 6, "surrounding")
+            if extra == 5:
+                # a single fixed point (a sample): no interval is left to integrate over, the rule names still count
+                kw["fixed_points_in_x"] = [float(rx[st.draw(0, len(rx) - 1, "single-fixed-point")])]
+            elif extra == 6:
+                kw["fixed_points_indices_in_x"] = [int(np.searchsorted(x, rx[st.draw(0, len(rx) - 1, "single-fixed-point")]))]
             if extra == 1:
                 kw["alpha"] = st.pick((0.5, 2.0), "alpha")
             elif extra == 2:
@@ -1097,10 +1108,14 @@ class Machine:
                                                       for k, v in kw.items()) + ")"
         elif c == "match-fixed-points-not-samples" and st.coin(1, 4, "by-index"):
             idx = [int(i) for i in np.searchsorted(x, rx)]
-            idx[st.draw(0, len(idx) - 1, "which")] = n + st.draw(0, 50, "beyond")      # designates no sample at all
+            if st.coin(1, 3, "before-the-beginning"):
+                bad = -n - 1 - st.draw(0, 50, "beyond")                                # counts back past the first sample
+            else:
+                bad = n + st.draw(0, 50, "beyond")                                     # designates no sample at all
+            idx[st.draw(0, len(idx) - 1, "which")] = bad
             idx = sorted(idx)
             d["call"] = lambda wv: wv.integral_match(fixed_points_indices_in_x=idx)
-            d["text"] = f"integral_match(fixed_points_indices_in_x containing {idx[-1]} >= len(x) = {n})"
+            d["text"] = f"integral_match(fixed_points_indices_in_x containing {bad}, outside -{n}..{n - 1} for len(x) = {n})"
         elif c == "match-fixed-points-not-samples":
             pts = [float(v) for v in rx]
             i = st.draw(0, len(pts) - 1, "which")
